@@ -575,8 +575,23 @@ def _mentions_fresh(h, k):
     return core.contains(h, k)
 
 
+def goal_index_terms(ob, limit=10):
+    """integer terms used as array indices in the goal (e.g. j + 1): quantified assumptions are instantiated on them too"""
+    out = list(ob.index_terms)
+    seen = {t.get_id() for t in out}
+    for x in core.uninterp_apps(ob.goal):
+        nm = x.decl().name()
+        if nm.endswith("[]") or nm.endswith("[,]"):
+            for a in x.children()[1:]:
+                if z3.is_int(a) and not z3.is_int_value(a) and a.get_id() not in seen and len(out) < len(ob.index_terms) + limit:
+                    seen.add(a.get_id())
+                    out.append(a)
+    return out
+
+
 def full_assumptions(ob, timeout_ms, rep=None):
     base = list(ob.assumptions)
+    ob.index_terms = goal_index_terms(ob)
     for q in ob.qfacts:
         base += q.instances(ob.index_terms)
     base += core.str_distinct_facts()
@@ -673,6 +688,7 @@ def discharge(ob, timeout_ms=10000, rep=None):
     # stage 1: without sum-lemma instances (fewer assumptions: a proof here is a proof)
     if ob.kind != "cover":
         base = list(ob.assumptions)
+        ob.index_terms = goal_index_terms(ob)
         for q in ob.qfacts:
             base += q.instances(ob.index_terms)
         base += core.str_distinct_facts()
